@@ -37,7 +37,8 @@ func (s *State) evalUnquoteCalls(quoted ast.Node) ast.Node {
 // feels like we should merge ast and object and avoid these?
 func convertObjectToASTNode(obj object.Object) ast.Node {
 	// TODD: more types
-	switch obj := obj.(type) {
+	// A function called during the expansion can return its integer parameter as a live register (or a reference).
+	switch obj := object.Value(obj).(type) {
 	case object.Integer:
 		t := token.Intern(token.INT, strconv.FormatInt(obj.Value, 10))
 		r := ast.IntegerLiteral{Val: obj.Value}
